@@ -943,6 +943,44 @@ def run(ck, mode):
     ck.run_jobs([(lambda sub, rname=rname: receiver_job(sub, mode, prog, natbin, rname, K, nestedK, quick, nat_every)) for rname in names])
 
 
+def render_meta_text(l, mdl, uniq, root="item*"):
+    """source text of a whole `syn::Meta` rooted at `root` (named zz)"""
+    text = Text()
+    text.put("zz")
+    form = l.decisions.get(root + "#d")
+    if form == 1:
+        if l.decisions.get(root + ".List.0.tokens.parsed#d") == 1:
+            text.put("(=)")
+        else:
+            text.put("(")
+            render_items(l, mdl, root + ".List.0.tokens.parsed.Ok.0", text, uniq)
+            text.put(")")
+    elif form == 2:
+        text.put(" = ")
+        vs = len(text.s)
+        text.put("[1]")
+        text.mark(root + ".NameValue.0.value", vs)
+    text.mark(root, 0)
+    return text
+
+
+def replay_panic(ck, native, key, l, req, extra=None):
+    """a leaf that ends in a panic: confirm it against the real build before reporting (C07's subject, but a panic is never an
+    expected outcome of any conversion).  req = native request reproducing the leaf's input, or None"""
+    ck.obligations += 1
+    if req is None:
+        ck.engine("%s: symbolic panic %r and no witness could be rendered" % (key, l.panics))
+        return False
+    got = native.ask(req)
+    if isinstance(got, dict) and "panic" in got:
+        rep = {"property": ck.pid, "request": req, "observed": got, "panics": l.panics}
+        rep.update(extra or {})
+        ck.report("%s:panic" % key, "panics instead of returning an error (%s)" % "; ".join(map(str, l.panics))[:200], rep)
+        return True
+    ck.engine("%s: symbolic panic %r not reproduced natively (%s)" % (key, l.panics, req))
+    return False
+
+
 def receiver_job(ck, mode, prog, natbin, rname, K, nestedK, quick, nat_every):
     native = Native(natbin)
     uniq = [0]
@@ -1011,6 +1049,10 @@ def receiver_job(ck, mode, prog, natbin, rname, K, nestedK, quick, nat_every):
             ck.absorb(I2, leaves2, "entry_%s_meta_flat" % rname)
             ck.check_exhaustive(I2, leaves2, rname + ":from_meta")
             for l in leaves2:
+                if l.status == "panicked":
+                    mdl = ck.model_of(list(l.pc) + ident_validity(l)) or ck.model_of(l.pc)
+                    replay_panic(ck, native, rname + ":from_meta", l, render_meta(l, mdl)[0])
+                    continue
                 if l.status != "returned":
                     ck.engine("%s from_meta: leaf %s %s" % (rname, l.status, l.info or l.panics))
                     continue
